@@ -1,4 +1,5 @@
 """C07 - ConstraintKMeans produces clusters of equal size (specs: Quota, QuotaGain; hook H1)."""
+import os
 import numpy
 from .. import boot, tlc
 from ..core import main
@@ -64,7 +65,7 @@ def s2c_distance(ctx, count):
     _randomize_index are disabled for the replay (numpy.random.rand wrapped to return zeros)."""
     from mlinsights.mlmodel._kmeans_constraint_ import constraint_predictions
     import glob, os, re, shutil
-    out = os.path.join(tlc.SCR, "sim-c07")
+    out = os.path.join(tlc.SCR, "sim-c07-%d" % os.getpid())
     shutil.rmtree(out, ignore_errors=True)
     os.makedirs(out)
     cfg = "SPECIFICATION Spec\nCONSTANTS MaxN = 9\n MaxK = 4\n DEV_QuotaLE = FALSE\nINVARIANT Balanced\n"
@@ -266,7 +267,7 @@ def s2c_gain(ctx, count):
     import glob, os, shutil
     from scipy.optimize import linprog
     from mlinsights.mlmodel import _kmeans_constraint_ as KC
-    out = os.path.join(tlc.SCR, "sim-c07g")
+    out = os.path.join(tlc.SCR, "sim-c07g-%d" % os.getpid())
     shutil.rmtree(out, ignore_errors=True)
     os.makedirs(out)
     cfg = ("SPECIFICATION Spec\nCONSTANTS MaxN = 7\n MaxK = 3\n ExploreSwitch = FALSE\n DEV_CapsAsCoded = FALSE\n"
